@@ -2,7 +2,7 @@
    Final statements only; for EVERY callee record and both state machines; stated on the reference machine
    (Model/Parser.v [reference]); C01 relates the implementation's machine to it on quiet runs. *)
 From Coq Require Import ZArith.
-From Httoop Require Import Model.Parser Model.Composer Proofs.ParserFrag Proofs.ParserWf Proofs.ParserChunked Corr.Parser.
+From Httoop Require Import Model.Parser Model.Composer Proofs.ParserFrag Proofs.ParserFraming Proofs.ParserWf Proofs.ParserChunked Corr.Parser.
 
 (* Isolation / pipelining: if [a] is parsed into complete messages leaving the machine idle, then for ANY
    following octets [b] the deliveries are those of [a] followed by exactly the deliveries of [b] parsed
@@ -105,6 +105,24 @@ Theorem C02_pipeline_then : forall (C : callees) (k : kind) (ms : list (wmsg)) (
 Proof. exact pipeline_then. Qed.
 Print Assumptions C02_pipeline_then.
 
+(* ... under ANY way of cutting those octets into successive parse() calls (one call, one call per octet, anything between) *)
+Theorem C02_pipeline_fragmented : forall (C : callees) (k : kind) (ms : list wmsg) (frags : list bytes),
+  Forall (w_ok C k) ms -> concat_bytes frags = concat_bytes (map w_wire ms) ->
+  run_keep reference C k init frags = (init, map w_delivered ms, None).
+Proof. exact pipeline_fragmented. Qed.
+Print Assumptions C02_pipeline_fragmented.
+
+(* ... and for the machine AS IMPLEMENTED ([real]: LF fallback, 411 peek, eager consumption of header lines), for every
+   fragmentation on which it does not take one of its two buffer-dependent shortcuts (the computable [quiet_run] of C01;
+   the shortcuts are findings D13 / D14).  This composes C01's simulation (eager vs lazy header parsing) and bridge
+   (real vs eager) with the sequence theorem. *)
+Theorem C02_pipeline_fragmented_real : forall (C : callees) (k : kind) (ms : list wmsg) (frags : list bytes),
+  Forall (w_ok C k) ms -> concat_bytes frags = concat_bytes (map w_wire ms) ->
+  quiet_run C k init frags = true ->
+  run_keep real C k init frags = (init, map w_delivered ms, None).
+Proof. exact pipeline_fragmented_real. Qed.
+Print Assumptions C02_pipeline_fragmented_real.
+
 (* The one configuration in which the client machine must NOT read a body: the message whose framing fields it strips
    ([c_connect]: a successful response to its CONNECT request, RFC 7231 4.3.6) ends with its header section whatever
    Transfer-Encoding / Content-Length it carries; it is delivered with an empty body, without those fields, with
@@ -158,6 +176,12 @@ Proof.
   assert (H2 : w_ok (callees_of T2) Client M2) by (unfold w_ok; vm_compute; repeat split; try reflexivity; discriminate).
   split; [exact H1 | split; [exact H2 | apply C02_pipeline; apply Forall_cons; [exact H1 | apply Forall_cons; [exact H2 | apply Forall_cons; [exact H1 | apply Forall_nil]]]]].
 Qed.
+
+(* the per-octet feeding of that three-message pipeline to the machine as implemented is quiet: the hypothesis of
+   C02_pipeline_fragmented_real is satisfiable with a non-trivial fragmentation *)
+Example C02_pipeline_real_example :
+  quiet_run (callees_of T2) Client init (map (fun c => [c]) (concat_bytes (map w_wire [M1; M2; M1]))) = true.
+Proof. vm_compute. reflexivity. Qed.
 
 Example C02_example :
   let block := X "436f6e74656e742d4c656e6774683a20330d0a782d613a2062" in
